@@ -51,6 +51,8 @@ pub fn main(args: &[String]) -> i32 {
             match args.get(1).map(|s| s.as_str()) {
                 Some("seq") => eseq::worker_main(),
                 Some("sweep") => crate::esweep::worker_main(),
+                Some("http") => crate::ehttp::worker_main(),
+                Some("payload") => crate::epayload::worker_main(),
                 other => eprintln!("unknown worker kind {other:?}"),
             }
             0
@@ -68,6 +70,8 @@ fn run_check(id: &str, tier: &str, replay: Option<&str>) -> i32 {
             seq_check(id, tier, replay)
         }
         "C12" => c12_check(tier, replay),
+        "C15" | "C16" | "C20" => http_check(id, tier, replay),
+        "C06" => c06_check(tier, replay),
         _ => {
             eprintln!("no check for property {id}");
             2
@@ -489,4 +493,297 @@ fn seq_replay(id: &str, tier: &str, file: &str, runs: &[(String, SeqParams)]) ->
         println!("replay of {file}: no violation of {id}");
         0
     }
+}
+
+// ---------------------------------------------------------------------------------------------
+// E-HTTP based checks: C15, C16, C20
+
+fn http_check(id: &str, tier: &str, replay: Option<&str>) -> i32 {
+    let quick = tier != "thorough";
+    let mut rep = Report::new(id, tier, "model_checking");
+    let mons: Vec<&str> = vec![id];
+    // server configurations: (spec, allow-list, empty state, big bodies)
+    let mut servers: Vec<(&str, Option<Vec<u8>>, bool, bool)> = vec![];
+    match id {
+        "C15" => {
+            servers.push(("MemHttp", None, false, true));
+            servers.push(("SqlHttp", None, false, !quick));
+            servers.push(("MemHttp", None, true, false));
+            if !quick {
+                servers.push(("SqlHttp", None, true, false));
+                servers.push(("MemHttp", Some(vec![0]), false, false));
+            }
+        }
+        "C16" => {
+            for allow in [None, Some(vec![]), Some(vec![0]), Some(vec![0, 1])] {
+                servers.push(("MemHttp", allow.clone(), false, false));
+                if !quick || allow == Some(vec![0]) {
+                    servers.push(("SqlHttp", allow.clone(), false, false));
+                }
+            }
+        }
+        _ => {
+            servers.push(("MemHttp", None, false, false));
+            servers.push(("SqlHttp", None, false, false));
+            servers.push(("MemHttp", Some(vec![0]), false, false));
+            servers.push(("MemHttp", None, true, false));
+            if !quick {
+                servers.push(("SqlHttp", Some(vec![0]), false, false));
+                servers.push(("SqlHttp", None, true, false));
+            }
+        }
+    }
+    if let Some(file) = replay {
+        let s = std::fs::read_to_string(file).unwrap_or_default();
+        let v: Value = serde_json::from_str(&s).unwrap_or(Value::Null);
+        if v["replay"]["engine"] == "eseq" {
+            return seq_replay(id, tier, file, &c16_c20_seq_runs(id, tier));
+        }
+        // grammar replay: re-run the one server configuration and look for the same class
+        let t = v["replay"]["task"].clone();
+        let mut pool = crate::pool::Pool::spawn(1, "http", &json!({"seed": seed(), "monitors": mons}));
+        let mut t1 = t.clone();
+        t1["part"] = json!(0);
+        t1["parts"] = json!(1);
+        let r = pool.map(&[t1]);
+        if let Some(Ok(res)) = r.first() {
+            for f in res["findings"].as_array().cloned().unwrap_or_default() {
+                if f["dim"] == v["replay"]["dim"] {
+                    println!("VIOLATION property={id} replay={file}");
+                    println!("  {} :: {}", f["msg"].as_str().unwrap_or(""), f["dim"].as_str().unwrap_or(""));
+                    return 1;
+                }
+            }
+        }
+        println!("replay of {file}: no violation of {id}");
+        return 0;
+    }
+    let parts = threads().max(1);
+    let mut tasks = vec![];
+    for (spec, allow, empty, big) in &servers {
+        for part in 0..parts {
+            tasks.push(json!({"spec": spec, "allow": allow, "empty": empty, "big": big, "full_methods": !quick, "part": part, "parts": parts}));
+        }
+    }
+    let mut pool = crate::pool::Pool::spawn(threads(), "http", &json!({"seed": seed(), "monitors": mons}));
+    let results = pool.map(&tasks);
+    drop(pool);
+    let mut statuses: std::collections::BTreeMap<String, u64> = Default::default();
+    let mut samples = vec![];
+    let mut grammar_sizes = vec![];
+    for (k, r) in results.iter().enumerate() {
+        match r {
+            Ok(res) => {
+                if let Some(e) = res["error"].as_str() {
+                    rep.machinery_errors.push(e.to_string());
+                    continue;
+                }
+                for key in ["requests", "wellformed", "malformed", "ambiguous", "unlisted", "mutating", "restores", "unbuildable"] {
+                    rep.add_count(&format!("grammar_{key}"), res[key].as_u64().unwrap_or(0));
+                }
+                if tasks[k]["part"] == 0 {
+                    grammar_sizes.push(json!({"server": {"spec": tasks[k]["spec"], "allow": tasks[k]["allow"], "empty_state": tasks[k]["empty"], "limit_sized_bodies": tasks[k]["big"]}, "requests_in_grammar": res["grammar_size"]}));
+                }
+                if let Some(o) = res["statuses"].as_object() {
+                    for (s, n) in o {
+                        *statuses.entry(s.clone()).or_insert(0) += n.as_u64().unwrap_or(0);
+                    }
+                }
+                for s in res["samples"].as_array().cloned().unwrap_or_default() {
+                    if samples.len() < 8 {
+                        samples.push(s);
+                    }
+                }
+                for f in res["findings"].as_array().cloned().unwrap_or_default() {
+                    rep.violations.push(Violation {
+                        property: id.to_string(),
+                        signature: format!("ehttp|{}|{}|{}", f["monitor"].as_str().unwrap_or(""), tasks[k]["spec"].as_str().unwrap_or(""), f["class"].as_str().unwrap_or("")),
+                        message: format!("[{}] {} :: {}", tasks[k]["spec"].as_str().unwrap_or(""), f["msg"].as_str().unwrap_or(""), f["dim"].as_str().unwrap_or("")),
+                        replay: json!({"engine": "ehttp", "task": tasks[k], "dim": f["dim"]}),
+                    });
+                }
+            }
+            Err(e) => rep.machinery_errors.push(format!("http worker: {e}")),
+        }
+    }
+    rep.cov("grammar_servers", json!(grammar_sizes));
+    rep.cov("grammar_status_histogram", json!(statuses));
+    // E-SEQ part: C16 listed clients in lock step with a list-less twin; C20 on every E-SEQ response
+    let runs = c16_c20_seq_runs(id, tier);
+    let mut runs_json = vec![];
+    let mut exhaustive = true;
+    for (name, p) in &runs {
+        let r = eseq::run(p);
+        exhaustive &= r.exhaustive;
+        for s in r.samples.iter().take(3) {
+            samples.push(s.clone());
+        }
+        absorb_seq(&mut rep, id, name, p, &r, &mut runs_json);
+    }
+    rep.cov("runs", json!(runs_json));
+    let reqs = rep.coverage.get("grammar_requests").and_then(|v| v.as_u64()).unwrap_or(0);
+    if runs.is_empty() {
+        // model-checking keys for a purely grammar-driven check: one state per server, one
+        // transition per request sent through the real app
+        rep.add_count("states", servers.len() as u64);
+        rep.add_count("transitions", reqs);
+        rep.add_count("traces_validated_against_impl", reqs);
+    } else {
+        rep.add_count("transitions", reqs);
+        rep.add_count("traces_validated_against_impl", reqs);
+    }
+    rep.cov("samples", json!(samples));
+    rep.cov("exhaustive", json!(exhaustive));
+    rep.assume("only requests the in-process actix service can express (syntactically valid HTTP); responses fabricated by the HTTP codec before the app runs are out of scope");
+    rep.assume("alternative spellings of a well-formed uuid (upper case, simple, braced, urn) count as well-formed: they must be served or refused with 4xx, never 5xx");
+    rep.finish()
+}
+
+fn c16_c20_seq_runs(id: &str, tier: &str) -> Vec<(String, SeqParams)> {
+    let quick = tier != "thorough";
+    let mk = |name: &str, specs: Vec<crate::sut::SutSpec>, mons: Vec<&'static str>, a: Alphabet, depth: usize| {
+        (
+            name.to_string(),
+            SeqParams {
+                alphabet: a,
+                cfg: Config { days: 2, versions: 2 },
+                specs,
+                max_depth: depth,
+                unmerged_depth: 1,
+                monitors: mons,
+                reopen_probe: false,
+                solo_runs: false,
+                max_states: if quick { 6000 } else { 400_000 },
+                wall_cap_s: if quick { 40.0 } else { 1500.0 },
+                threads: threads(),
+                seed: seed(),
+            },
+        )
+    };
+    match id {
+        "C20" => vec![mk("every HTTP response of the history exploration", vec![MEM_HTTP, SQL_HTTP], vec!["C20"], alpha(2, 2, true, false, true, &[2, 3]), if quick { 3 } else { 5 })],
+        "C16" => vec![mk("listed clients: allow-listed servers in lock step with list-less twins", vec![MEM_HTTP, crate::sut::MEM_HTTP_ALLOW, SQL_HTTP, crate::sut::SQL_HTTP_ALLOW], vec!["C16"], alpha(2, 2, true, false, true, &[2]), if quick { 3 } else { 5 })],
+        _ => vec![],
+    }
+}
+
+// ---------------------------------------------------------------------------------------------
+// C06: payload alphabet
+
+fn c06_check(tier: &str, replay: Option<&str>) -> i32 {
+    use crate::epayload::*;
+    let quick = tier != "thorough";
+    let mut rep = Report::new("C06", tier, "exploration");
+    let mut tasks: Vec<Value> = vec![];
+    if let Some(file) = replay {
+        let s = std::fs::read_to_string(file).unwrap_or_default();
+        let v: Value = serde_json::from_str(&s).unwrap_or(Value::Null);
+        let mut pool = crate::pool::Pool::spawn(1, "payload", &json!({"seed": seed()}));
+        let r = pool.map(&[v["replay"]["task"].clone()]);
+        if let Some(Ok(res)) = r.first() {
+            if let Some(f) = res["findings"].as_array().and_then(|a| a.first()) {
+                println!("VIOLATION property=C06 replay={file}");
+                println!("  {}", f["msg"].as_str().unwrap_or(""));
+                return 1;
+            }
+        }
+        println!("replay of {file}: no violation of C06");
+        return 0;
+    }
+    let lens = lengths(quick);
+    let mut items: Vec<Value> = vec![];
+    for &l in &lens {
+        for c in CLASSES {
+            if l >= (1 << 16) + 100 && !matches!(*c, "zeros" | "random" | "badutf8") {
+                continue;
+            }
+            items.push(json!({"class": c, "len": l}));
+        }
+    }
+    for t in SPECIAL_TEXTS {
+        items.push(json!({"text": t}));
+    }
+    for b in 0..256u64 {
+        items.push(json!({"byte": b}));
+    }
+    if !quick {
+        for b in 0..65536u64 {
+            items.push(json!({"bytes2": b}));
+        }
+    }
+    // chunking product (HTTP only)
+    let mut chunk_items: Vec<Value> = vec![];
+    for l in 1..=6usize {
+        for c in ["random", "nul", "badutf8"] {
+            chunk_items.push(json!({"class": c, "len": l}));
+        }
+    }
+    for l in [7usize, 300, 3964, 4061, 4096, 4097, 8192, 12288, 65536, (1 << 20) + 1] {
+        chunk_items.push(json!({"class": "random", "len": l}));
+    }
+    if !quick {
+        for l in [4000usize, 4062, 5000, 16384, 20000, 1 << 21] {
+            chunk_items.push(json!({"class": "badutf8", "len": l}));
+        }
+    }
+    let piece = 300;
+    for spec in ["MemLib", "SqlLib", "MemHttp", "SqlHttp"] {
+        for route in ["version", "snapshot"] {
+            for ch in items.chunks(piece) {
+                tasks.push(json!({"spec": spec, "route": route, "items": ch, "chunking": false}));
+            }
+            if spec.ends_with("Http") {
+                for ch in chunk_items.chunks(4) {
+                    tasks.push(json!({"spec": spec, "route": route, "items": ch, "chunking": true}));
+                }
+            }
+        }
+    }
+    let mut pool = crate::pool::Pool::spawn(threads(), "payload", &json!({"seed": seed()}));
+    let results = pool.map(&tasks);
+    drop(pool);
+    let mut roundtrips = 0u64;
+    let mut chunkings = 0u64;
+    for (k, r) in results.iter().enumerate() {
+        match r {
+            Ok(res) => {
+                if let Some(e) = res["error"].as_str() {
+                    rep.machinery_errors.push(e.to_string());
+                    continue;
+                }
+                roundtrips += res["roundtrips"].as_u64().unwrap_or(0);
+                chunkings += res["chunkings"].as_u64().unwrap_or(0);
+                for f in res["findings"].as_array().cloned().unwrap_or_default() {
+                    let mut t1 = tasks[k].clone();
+                    // narrow the replay to the failing payload
+                    let label = f["payload"].as_str().unwrap_or("").to_string();
+                    let only: Vec<Value> = tasks[k]["items"].as_array().unwrap().iter().filter(|it| {
+                        let l = if let Some(c) = it["class"].as_str() { format!("{c}:{}", it["len"]) } else if let Some(t) = it["text"].as_str() { format!("text:{t:?}") } else if let Some(b) = it["byte"].as_u64() { format!("byte:{b:#04x}") } else { format!("bytes2:{:#06x}", it["bytes2"].as_u64().unwrap_or(0)) };
+                        l == label
+                    }).cloned().collect();
+                    t1["items"] = json!(only);
+                    rep.violations.push(Violation {
+                        property: "C06".into(),
+                        signature: format!("payload|{}|{}|{}", tasks[k]["spec"].as_str().unwrap_or(""), tasks[k]["route"].as_str().unwrap_or(""), f["class"].as_str().unwrap_or("")),
+                        message: format!("[{} {}] payload {} ({}): {}", tasks[k]["spec"].as_str().unwrap_or(""), tasks[k]["route"].as_str().unwrap_or(""), label, f["chunking"].as_str().unwrap_or(""), f["msg"].as_str().unwrap_or("")),
+                        replay: json!({"engine": "epayload", "task": t1}),
+                    });
+                }
+            }
+            Err(e) => rep.machinery_errors.push(format!("payload worker: {e}")),
+        }
+    }
+    rep.cov("evaluations", json!(roundtrips));
+    rep.cov("distinct_nontrivial", json!(items.len() + chunk_items.len()));
+    rep.cov("rule", json!("one evaluation = one upload through the real code followed by reading it back and comparing bytes and ids; payloads are enumerated from a boundary-structured alphabet (every length 1..300, every length 3800..4200, +-60 around multiples of 4092/4096 up to 5 pages, +-40 around 2^14 and 2^16, 1 MiB +-1; 7 content classes; numeric-looking texts; all 256 one-byte payloads; thorough: all 65536 two-byte payloads, 2 MiB, 16 MiB); distinct = distinct payloads of the alphabet, each non-trivial by construction (non-empty, distinct bytes or length)"));
+    rep.cov("lengths", json!(lens.len()));
+    rep.cov("classes", json!(CLASSES));
+    rep.cov("explicit_chunkings", json!(chunkings));
+    rep.cov("implementations", json!(["MemLib", "SqlLib", "MemHttp", "SqlHttp"]));
+    rep.cov("routes", json!(["add-version -> get-child-version", "add-snapshot -> snapshot"]));
+    rep.cov("samples", json!([items[0], items[items.len() / 2], chunk_items[0], {"text": SPECIAL_TEXTS[1]}]));
+    rep.cov("exhaustive", json!(true));
+    rep.assume("exhaustive over the stated payload alphabet only; the full payload space (up to 100 MiB of arbitrary bytes) cannot be enumerated");
+    rep.assume("chunk boundaries are those of the in-process payload stream; wire-level chunking over a socket is exercised by C17's sessions");
+    rep.finish()
 }
